@@ -213,6 +213,23 @@ def sub_colormap(case):
             if not (_eq(s[0], real.P[k][idx]) and _eq(s[1], P2[k][idx])):
                 raise Mismatch("correspondence edge %d joins %s, the poses are at %s and %s" % (k, s.tolist(), real.P[k][idx].tolist(), P2[k][idx].tolist()),
                                observed="edges", mode=mode)
+        # first trajectory with positions of another dtype (integer map coordinates, float32 from a driver) than the second one
+        ed = case.get("edge_dtype", "f8")
+        if ed != "f8":
+            from evo.core import trajectory as evo_traj_mod
+            P1 = np.round(real.P * 4.0).astype(np.int64) if ed == "i8" else real.P.astype(np.float32)
+            first = evo_traj_mod.PosePath3D(positions_xyz=P1, orientations_quat_wxyz=np.array(obj.orientations_quat_wxyz, dtype=float))
+            ncoll = len(ax.collections)
+            plot.draw_correspondence_edges(ax, first, other, plot.PlotMode[mode])
+            new = ax.collections[ncoll:]
+            segs = _segments(new[0], three_d) if len(new) == 1 else []
+            if len(segs) != n:
+                raise Mismatch("correspondence edges (%s positions): %d segments for %d pose pairs" % (ed, len(segs), n), observed="segments", mode=mode)
+            P1f = np.asarray(P1, dtype=float)
+            for k, s in enumerate(segs):
+                if not (_eq(s[0], P1f[k][idx]) and _eq(s[1], P2[k][idx])):
+                    raise Mismatch("correspondence edge %d (first trajectory with %s positions) joins %s, the poses are at %s and %s" % (
+                        k, ed, s.tolist(), P1f[k][idx].tolist(), P2[k][idx].tolist()), observed="edges_dtype", mode=mode)
     finally:
         plt.close("all")
     return "colormap/" + mode
@@ -399,7 +416,7 @@ def _st_plot(min_n, max_n):
         "unit": st.sampled_from(["mm", "cm", "m", "km"]), "markers": st.booleans(), "style": st.sampled_from(["-", "--", "o"]),
         "scale": st.sampled_from([0.0, 0.1, 2.5]), "start": st.sampled_from(["none", "t0", "other", "zero"]),
         "container": st.sampled_from(["single", "list", "dict"]), "use_axes": st.booleans(), "standstill": st.booleans(),
-        "other_fig": st.sampled_from([False, False, True])}))
+        "other_fig": st.sampled_from([False, False, True]), "edge_dtype": st.sampled_from(["f8", "i8", "f4"])}))
 
 
 st_err = st.fixed_dictionaries({"vals": st.lists(gen.fl(0.0, 1e3), min_size=1, max_size=50), "x": st.one_of(st.none(), st.lists(gen.fl(-5, 5), min_size=1, max_size=5)),
